@@ -82,6 +82,12 @@ Theorem C20_adjacent_check_total : forall l, sorted_from 0 l -> Forall sized l -
 Proof. intros l H1 H2. apply (adj_check_no_panic 0 l); [apply Z.le_refl|exact H1|exact H2]. Qed.
 Print Assumptions C20_adjacent_check_total.
 
+(* on such objects linking never panics (given that the label positions fit a usize): so it
+   fails with an error exactly when the files are not linkable *)
+Theorem C20_link_total : forall a b, ObjInv a -> ObjInv b -> LinesFit a b -> SpansFit a b -> link a b <> LPanic.
+Proof. exact link_total. Qed.
+Print Assumptions C20_link_total.
+
 (* the image of the view is what addr_iter lists *)
 Theorem C20_addr_iter : forall o addr w, ObjInv o -> (In (addr, w) (addr_iter o) <-> v_img (view_of o) addr = Some w).
 Proof. exact addr_iter_image. Qed.
